@@ -155,6 +155,14 @@ func StepBudget(n int, msg string) {
 	}()
 }
 
+// EnvExists reports whether path (a file or a directory with anything below it) exists: natively on the real file
+// system, under the symbolic interpreter in the environment-stub file system (what os.MkdirAll / os.WriteFile
+// created successfully on this path and os.RemoveAll has not removed).
+func EnvExists(path string) bool {
+	_, err := os.Stat(path)
+	return err == nil
+}
+
 // Symbolic reports whether the harness runs under the symbolic interpreter.
 func Symbolic() bool { return false }
 
